@@ -23,7 +23,7 @@ import cloudpickle
 from harness import core, learners as L, xlearner as X
 
 MODULES = ["AdaptiveProofs.Props.C13"]
-KINDS = ["l1d", "l1d_curv", "l1d_vec", "l1d_tri", "l1d_uni", "lnd2", "lnd3", "avg", "avg1d", "seq", "integ",
+KINDS = ["l1d", "l1d_curv", "l1d_vec", "l1d_tri", "l1d_uni", "lnd2", "lnd3", "l2d", "avg", "avg1d", "seq", "integ",
          "bal:l1d", "bal:seq", "bal:avg", "bal:lnd2", "ds:l1d", "ds:seq", "ds:avg", "ds:lnd2"]
 CHANNELS = ["save_gz", "save_plain", "pickle", "cloudpickle", "copy_from"]
 
@@ -227,6 +227,8 @@ def run(ctx):
             sig = f"C13.{cl}.{r['kind']}"
             if r.get("unevaluated_bound"):
                 sig = "C13.suggestions_differ:l1d_restore_with_unevaluated_bound"
+            if r["kind"].split(":")[-1] == "l2d" and cl == "suggestions_differ":
+                sig = "C13.suggestions_differ:l2d_stack_cache"
             failures.append({"clause": cl, "signature": sig, "detail": det,
                              "replay": {"kind": r["kind"], "seed": r["seed"], "nops": r["nops"]}})
     return core.conclude(
@@ -241,7 +243,7 @@ def run(ctx):
                     "means), incl. extra_data and per-child data; loss and the next ask(1)/ask(3) are compared exactly for pickles "
                     "and to 1e-9 for file/copy restores.",
         trusted=core.COMMON_TRUSTED + ["cloudpickle / gzip byte formats"],
-        assumptions=["Learner2D is not exercised (cannot get past its corner points in this environment)"],
+        assumptions=["Learner2D is exercised since its NumPy 2 / SciPy 1.15 breakage was repaired (fix: commits)"],
         extra={"kinds": dist, "histories_aborted": aborted},
         partial=["restore-bisimilarity beyond the next ask is not proved in Lean; LearnerND / IntegratorLearner / AverageLearner1D "
                  "have no Lean model of _get_data/_set_data here"],
